@@ -142,13 +142,22 @@ Definition s_eq (a b : term) : term :=
   | None => TOp2 EQ a b
   end end.
 
+Definition and_const_shl_view (a b : term) : option (Z * Z * term) :=
+  match a, b with
+  | TConst c, TOp2 SHL (TConst s) y => if (0 <=? s) && (s <? 256) then Some (c, s, y) else None
+  | _, _ => None
+  end.
+
 Definition s_and (a b : term) : term :=
   if is_c a 0 then TConst 0
   else if term_eqb a b then a
   else if is_c a (W - 1) then b
   else if is_c a (2 ^ 160 - 1) && is_addr b then b
   else if is_not_of b a || is_not_of a b then TConst 0
-  else match inner AND b with
+  else match and_const_shl_view a b with
+  | Some (c, s, y) => TOp2 SHL (TConst s) (mk2 AND (TConst (wshr s c)) y)   (* c & (y << s) = ((c >> s) & y) << s *)
+  | None =>
+  match inner AND b with
   | Some p => if among a p then b else TOp2 AND a b
   | None =>
   match inner AND a with
@@ -163,7 +172,7 @@ Definition s_and (a b : term) : term :=
   match inner SHL a, inner SHL b with
   | Some (s, y), Some (s', z) => if term_eqb s s' then TOp2 SHL s (mk2 AND y z) else TOp2 AND a b
   | _, _ => TOp2 AND a b
-  end end end end end.
+  end end end end end end.
 
 Definition s_or (a b : term) : term :=
   if is_c a 0 then b
